@@ -41,7 +41,7 @@ def _call(f):
 
 def _obs(rng, cls, v, k=1):
     lays = gen.operand_layouts(rng, cls, k)
-    return [gen.make_obs(rng, lay, mean=1.0, sigma=0.02) * (v[i] if isinstance(v, list) else v) for i, lay in enumerate(lays)]
+    return [gen.make_obs(rng, lay, mean=1.0, sigma=0.02) * ((v[i] if isinstance(v, list) else v) or 1.0) for i, lay in enumerate(lays)]
 
 
 def _rescale(o, v):
@@ -71,6 +71,10 @@ ROOTS = [
     ('cubic', lambda x, d: x ** 3 + x - d, N('sub', N('add', N('pow', V(1), C(3)), V(1)), V(2)), None, [3.1], 1.0),
     ('explog', lambda x, d: anp.log(x) + x - d, N('sub', N('add', N('log', V(1)), V(1)), V(2)), None, [1.8], 1.0),
     ('ratio2', lambda x, d: d[0] * x - d[1], N('sub', N('mul', V(2), V(1)), V(3)), N('div', V(2), V(1)), [1.4, 2.5], 1.0),
+    # data with a central value of exactly zero (a difference that vanishes on average) are data like any other
+    ('tanh_zero', lambda x, d: anp.tanh(x) - d, N('sub', N('tanh', V(1)), V(2)), N('arctanh', V(1)), [0.0], 0.3),
+    ('expm1_zero', lambda x, d: anp.exp(x) - 1.0 - d, N('sub', N('sub', N('exp', V(1)), C(1.0)), V(2)), N('log', N('add', C(1.0), V(1))), [0.0], 0.5),
+    ('lin_zero', lambda x, d: d[0] + d[1] * x, N('add', V(2), N('mul', V(3), V(1))), N('neg', N('div', V(1), V(2))), [0.0, 1.6], 1.0),
     ('vec3', lambda x, d: d[0] * x ** 3 + d[1] * x - d[2], N('sub', N('add', N('mul', V(2), N('pow', V(1), C(3))), N('mul', V(3), V(1))), V(4)), None, [0.7, 1.3, 2.9], 1.0),
 ]
 
@@ -82,7 +86,9 @@ def root_cases(rng, ctx, reps):
             cls = str(rng.choice(['same', 'gapped', 'multi_replica', 'second_ensemble', 'replica_subset']))
             dvals = [v * float(rng.uniform(0.9, 1.1)) for v in dv]
             ds = _obs(rng, cls, dvals, k=len(dvals))
-            ds = [_rescale(o, v) for o, v in zip(ds, dvals)]
+            ds = [_rescale(o, v) if v != 0.0 else 0.3 * (o - float(o.value)) for o, v in zip(ds, dvals)]
+            if dvals[0] == 0.0 and rng.random() < 0.4:
+                ds[0] = pe.cov_Obs(0.0, 0.02 ** 2, 'dzero')
             if rng.random() < 0.25:
                 ds[-1] = pe.cov_Obs(dvals[-1], (0.02 * dvals[-1]) ** 2, 'droot')
             arg = ds[0] if len(ds) == 1 else ds
